@@ -358,6 +358,8 @@ fn sni_of(hello: &[u8]) -> String {
     f().unwrap_or_else(|| "-".to_string())
 }
 
+thread_local! { static AFTER: std::cell::RefCell<Vec<(String, String, bool)>> = const { std::cell::RefCell::new(Vec::new()) }; }
+
 pub fn run(sc: &Value) -> Vec<String> {
     let req = &sc["req"];
     let settings = &sc["settings"];
@@ -510,6 +512,9 @@ pub fn run(sc: &Value) -> Vec<String> {
         if let Some(m) = guo(settings, "maxRedir") {
             rb = rb.max_redirections(m as u32);
         }
+        if let Some(c) = settings.get("compress").and_then(|x| x.as_bool()) {
+            rb = rb.allow_compression(c);
+        }
         for p in ga(req, "params") {
             rb = rb.param(p[0].as_str().unwrap(), p[1].as_str().unwrap());
         }
@@ -525,7 +530,18 @@ pub fn run(sc: &Value) -> Vec<String> {
                 rb = rb.bearer_auth(t);
             }
         }
-        fn fin<B: attohttpc::body::Body>(rb: attohttpc::RequestBuilder<B>) -> Result<(u16, String), String> {
+        // header operations the caller issues after the body call
+        let after: Vec<(String, String, bool)> = ga(req, "headers_after")
+            .iter()
+            .map(|h| (h[0].as_str().unwrap().to_string(), h[1].as_str().unwrap().to_string(), h.get(2).and_then(|x| x.as_bool()) == Some(true)))
+            .collect();
+        AFTER.with(|a| *a.borrow_mut() = after);
+        fn fin<B: attohttpc::body::Body>(mut rb: attohttpc::RequestBuilder<B>) -> Result<(u16, String), String> {
+            let after = AFTER.with(|a| a.borrow().clone());
+            for (n, v, append) in &after {
+                let name = http::header::HeaderName::from_bytes(n.as_bytes()).unwrap();
+                rb = if *append { rb.header_append(name, v.as_str()) } else { rb.header(name, v.as_str()) };
+            }
             let sent = rb.send();
             life_push(if sent.is_ok() { "ok" } else { "err" }, 0);
             let mut rp = sent.map_err(|e| {
@@ -590,7 +606,15 @@ pub fn run(sc: &Value) -> Vec<String> {
             h[0] = json!(n);
         }
     }
-    out.push(json!({"ev":"reset","id":gs(sc,"id"),"req":req_ev,"settings":settings,"nodes":nodes,"bodyLen":expected_body.len(),"connect":connect_policy}).to_string());
+    // what the default-header table (RequestDefaults.tla) needs, always present
+    let lower_ops = |v: &[Value]| -> Vec<Value> {
+        v.iter().map(|h| { let mut h = h.clone(); h[0] = json!(h[0].as_str().unwrap().to_ascii_lowercase()); h }).collect()
+    };
+    let defaults = json!({"kind": if gs(&body_spec, "kind").is_empty() { "empty" } else { gs(&body_spec, "kind") },
+        "before": lower_ops(ga(req, "headers")), "after": lower_ops(ga(req, "headers_after")),
+        "compress": settings.get("compress").and_then(|x| x.as_bool()).unwrap_or(true),
+        "session": req.get("session_headers").is_some()});
+    out.push(json!({"ev":"reset","id":gs(sc,"id"),"req":req_ev,"settings":settings,"nodes":nodes,"bodyLen":expected_body.len(),"connect":connect_policy,"defaults":defaults}).to_string());
     let ph = phases.lock().unwrap();
     for (ci, c) in w.conns.iter().enumerate() {
         if c.dial.is_none() {
@@ -678,7 +702,13 @@ pub fn run(sc: &Value) -> Vec<String> {
                 "te":hv("transfer-encoding").iter().map(|s| s.to_ascii_lowercase()).collect::<Vec<_>>(),
                 "framing":pr.framing,"bodyLen":body_len,"rawBodyLen":pr.body.len(),"bodyLcp":body_lcp,"midZero":pr.mid_zero,"complete":pr.complete,"trailing":pr.trailing,
                 "kept":kept,"ncaller":callers.len(),"authOk":auth_ok,
-                "hdrs":pr.headers.iter().map(|h| json!([h.0, String::from_utf8_lossy(&h.1)])).collect::<Vec<_>>(),"qmatch":qmatch,"qpairs":qpairs.len(),"version":pr.version,
+                "hdrs":pr.headers.iter().map(|h| {
+                    // values that vary from run to run are replaced by what the table calls them
+                    let v = String::from_utf8_lossy(&h.1).to_string();
+                    let v = if h.0 == "user-agent" && v.starts_with("attohttpc/") { "default-ua".to_string() }
+                        else if h.0 == "content-type" && v.starts_with("multipart/form-data; boundary=") { "multipart/form-data; boundary=*".to_string() } else { v };
+                    json!([h.0, v])
+                }).collect::<Vec<_>>(),"qmatch":qmatch,"qpairs":qpairs.len(),"version":pr.version,
                 "auth":hv("authorization"),"proxyAuth":hv("proxy-authorization").len(),"ctype":hv("content-type"),"nchunks":pr.chunks.len(),
                 "leaks":marker_count(reqbytes, &secrets)},
             "written":c.written.len()}).to_string());
